@@ -81,12 +81,32 @@ theorem slot_fallback_at_top_level (W : World) (f : Nat) (ctx : Ctx) (st : St) (
   simp only [evalSlot, hc, hi]
 
 /-- (2b) a `<slot>` written in a LAYOUT itself (no instance scope), or in a component that was given nothing under the name, for which the
-    page handed content to the layout: that content is placed as parsed — a copy per use, no evaluation, and no recursion (the fallback is
-    not evaluated either) -/
+    PAGE handed content to the layout chain: that content is EVALUATED like any supplied content (fix: it used to be placed as parsed,
+    mustaches and all) - plain content in the stack the layout sees, a slot template in a fresh scope holding the props this slot binds,
+    popped afterwards - and inside it the page's slots are hidden (`slots := [], inherited := []`): a `<slot>` in the page's own content
+    cannot reach that content again (no recursion), and the fallback is never evaluated -/
 theorem slot_inherited_in_layout (W : World) (f : Nat) (ctx : Ctx) (st : St) (attrs : List Attr) (kids : List Node) (content : SlotContent) (hc : ctx.slots = [])
-    (hi : ctx.inherited.lookup (if getAttr attrs (S "name") == [] then S "default" else getAttr attrs (S "name")) = some content) :
-    evalSlot W (f + 1) ctx st attrs kids = .ok (content.nodes, st) := by
-  simp only [evalSlot, hc, hi]
+    (hi : ctx.inherited.lookup (if getAttr attrs (S "name") == [] then S "default" else getAttr attrs (S "name")) = some content)
+    (ht : content.tmpl = none) :
+    evalSlot W (f + 1) ctx st attrs kids = evalList W f { ctx with slots := [], inherited := [] } st content.nodes := by
+  simp only [evalSlot, hc, hi, ht]
+
+theorem slot_inherited_template_in_layout (W : World) (f : Nat) (ctx : Ctx) (st : St) (attrs : List Attr) (kids : List Node) (content : SlotContent) (tk : List Attr × List Node)
+    (hc : ctx.slots = [])
+    (hi : ctx.inherited.lookup (if getAttr attrs (S "name") == [] then S "default" else getAttr attrs (S "name")) = some content)
+    (ht : content.tmpl = some tk) :
+    evalSlot W (f + 1) ctx st attrs kids =
+      bindR (evalList W f { ctx with slots := [], inherited := [] } { st with stack := slotScopeStack st.stack (scopedVarName tk.1) (slotProps W.P (st.stack.envMap W.P.cfg) attrs) } tk.2)
+        (fun res st1 => .ok (res, { st1 with stack := st1.stack.pop })) := by
+  simp only [evalSlot, hc, hi, ht]
+
+/-- page-supplied content is treated exactly as content supplied on an include tag whose includer has no slots of its own -/
+theorem inherited_is_supplied (W : World) (f : Nat) (ctx : Ctx) (st : St) (attrs : List Attr) (kids : List Node) (content : SlotContent) (chain : List Str)
+    (name : Str) (hn : name = (if getAttr attrs (S "name") == [] then S "default" else getAttr attrs (S "name"))) :
+    evalSlot W (f + 1) { slots := [], chain := chain, inherited := [(name, content)] } st attrs kids =
+      evalSlot W (f + 1) { slots := [[(name, content)]], chain := chain, inherited := [] } st attrs kids := by
+  subst hn
+  simp [evalSlot, List.lookup]
 
 /-- … and when content WAS supplied the fallback is never evaluated: plain children are evaluated in the includer-visible stack, a slot
     template in a fresh scope holding the slot's props, popped afterwards. The supplied content is the includer's: it is evaluated with the
